@@ -18,27 +18,26 @@
      tag, chunk_meta and payload of every SOURCE_DEF, SIGNAL_DEF, track DEF/HEAD and USER_DATA chunk in
      write order.  item_next/item_prev links, offsets, CRCs and the chunks of data tracks are the
      business of C05/C14; the reader's list walks are modelled as walks over that list;
-   * jls_core_signal_def_align is taken from Spec.sp_align (its uint32 wrap-around and division by zero
-     are property C16's subject, coq/SigDef.v); the payload writers still truncate to 32 bits;
-   * I/O errors are not modelled;
-   * the byte that the C reads at [end] of the payload when a string's NUL is the last payload byte
-     (jls_buf_rd_str looks at *cur without comparing cur with end) is the parameter [j] of the decoders. *)
+   * the parameter normalisation of jls_core_signal_def_align is taken from Spec.sp_align (its arithmetic is
+     property C16's subject, coq/SigDef.v); its failure conditions are df_align_ok; the payload writers
+     still truncate to 32 bits;
+   * I/O errors are not modelled. *)
 From Coq Require Import NArith List Bool.
 From JLS Require Import Generated Spec.
 Import ListNotations.
 Local Open Scope N_scope.
 
 (* ------------------------------------------------------------------ results *)
+(* every read stays inside the payload (the cursor is the list of remaining bytes), so there is no
+   fault result: jls_buf_rd_str tests cur != end before it looks for the 0x1f after the NUL *)
 Inductive df_res (A : Type) : Type :=
 | DfOk (a : A)
-| DfErr (rc : N)        (* the C function returns this error code *)
-| DfOob.                (* the C reads beyond the end of the buffer (fault) *)
+| DfErr (rc : N).       (* the C function returns this error code *)
 Arguments DfOk {A} a.
 Arguments DfErr {A} rc.
-Arguments DfOob {A}.
 
 Definition df_bind {A B} (r : df_res A) (f : A -> df_res B) : df_res B :=
-  match r with DfOk a => f a | DfErr rc => DfErr rc | DfOob => DfOob end.
+  match r with DfOk a => f a | DfErr rc => DfErr rc end.
 
 (* ------------------------------------------------------------------ jls_buf_wr_* *)
 Definition df_u8 (v : N) : list N := [v mod 256].
@@ -59,8 +58,8 @@ Definition df_str_fitsb (l : list N) : bool := N.of_nat (length l) + 1 <=? JLS_B
 Definition df_str_fits (l : list N) : Prop := N.of_nat (length l) + 1 <= JLS_BUF_STRING_SIZE - 1.
 
 (* ------------------------------------------------------------------ jls_buf_rd_* *)
-(* read cursor: inside the payload (remaining bytes), or one byte past [end] *)
-Inductive df_cur := DfIn (l : list N) | DfOver.
+(* read cursor = the remaining bytes of the payload (cur .. end) *)
+Definition df_cur := list N.
 
 Fixpoint df_skipn (n : nat) (l : list N) : option (list N) :=
   match n with
@@ -68,65 +67,55 @@ Fixpoint df_skipn (n : nat) (l : list N) : option (list N) :=
   | S k => match l with [] => None | _ :: r => df_skipn k r end
   end.
 
-(* every fixed-size read checks (cur + n) > end first: from DfOver it answers EMPTY *)
+(* every fixed-size read checks (cur + n) > end first *)
 Definition df_rd_skip (n : nat) (c : df_cur) : df_res df_cur :=
-  match c with
-  | DfOver => DfErr JLS_ERROR_EMPTY
-  | DfIn l => match df_skipn n l with Some r => DfOk (DfIn r) | None => DfErr JLS_ERROR_EMPTY end
-  end.
+  match df_skipn n c with Some r => DfOk r | None => DfErr JLS_ERROR_EMPTY end.
 Definition df_rd_u8 (c : df_cur) : df_res (N * df_cur) :=
   match c with
-  | DfIn (b0 :: r) => DfOk (b0, DfIn r)
+  | b0 :: r => DfOk (b0, r)
   | _ => DfErr JLS_ERROR_EMPTY
   end.
 Definition df_rd_u16 (c : df_cur) : df_res (N * df_cur) :=
   match c with
-  | DfIn (b0 :: b1 :: r) => DfOk (b0 + 256 * b1, DfIn r)
+  | b0 :: b1 :: r => DfOk (b0 + 256 * b1, r)
   | _ => DfErr JLS_ERROR_EMPTY
   end.
 Definition df_rd_u32 (c : df_cur) : df_res (N * df_cur) :=
   match c with
-  | DfIn (b0 :: b1 :: b2 :: b3 :: r) => DfOk (b0 + 256 * b1 + 65536 * b2 + 16777216 * b3, DfIn r)
+  | b0 :: b1 :: b2 :: b3 :: r => DfOk (b0 + 256 * b1 + 65536 * b2 + 16777216 * b3, r)
   | _ => DfErr JLS_ERROR_EMPTY
   end.
 
-(* after the NUL: skip one following 0x1f.  At the end of the payload the C looks at the byte
-   stored at [end] (j): if that is 0x1f the cursor moves past [end]. *)
-Definition df_after_nul (j : N) (r : list N) : df_cur :=
+(* after the NUL: skip one following 0x1f if there is a following byte at all *)
+Definition df_after_nul (r : list N) : df_cur :=
   match r with
-  | [] => if j =? 31 then DfOver else DfIn []
-  | x :: r' => if x =? 31 then DfIn r' else DfIn r
+  | [] => []
+  | x :: r' => if x =? 31 then r' else r
   end.
 
 (* the copy loop; [room] = bytes still free in a string block that holds only this string
    (sizeof(buffer) - 1 - copied): the C moves a partial string to a fresh block, so a string
    is rejected exactly when it cannot fit an empty block *)
-Fixpoint df_rd_str_go (j : N) (room : N) (l : list N) : df_res (list N * df_cur) :=
+Fixpoint df_rd_str_go (room : N) (l : list N) : df_res (list N * df_cur) :=
   match l with
   | [] => DfErr JLS_ERROR_EMPTY                       (* while (cur != end) falls through *)
   | b :: r =>
     if room =? 0 then DfErr JLS_ERROR_TOO_BIG
-    else if b =? 0 then DfOk ([], df_after_nul j r)
-    else match df_rd_str_go j (room - 1) r with
+    else if b =? 0 then DfOk ([], df_after_nul r)
+    else match df_rd_str_go (room - 1) r with
          | DfOk (s, c) => DfOk (b :: s, c)
          | DfErr rc => DfErr rc
-         | DfOob => DfOob
          end
   end.
 
-(* jls_buf_rd_str.  From DfOver the loop condition cur != end never becomes false before the loop
-   has left the buffer. *)
-Definition df_rd_str (j : N) (c : df_cur) : df_res (list N * df_cur) :=
-  match c with
-  | DfOver => DfOob
-  | DfIn l => df_rd_str_go j (JLS_BUF_STRING_SIZE - 1) l
-  end.
+(* jls_buf_rd_str *)
+Definition df_rd_str (c : df_cur) : df_res (list N * df_cur) := df_rd_str_go (JLS_BUF_STRING_SIZE - 1) c.
 
 (* the view asked for by the property: string and remaining bytes; None = any error *)
 Definition df_dec_str (l : list N) : option (list N * list N) :=
-  match df_rd_str 0 (DfIn l) with
-  | DfOk (s, DfIn r) => Some (s, r)
-  | _ => None
+  match df_rd_str l with
+  | DfOk (s, r) => Some (s, r)
+  | DfErr _ => None
   end.
 
 (* ------------------------------------------------------------------ definition payloads *)
@@ -135,13 +124,13 @@ Definition df_enc_source_def (d : srcdef) : list N :=
              ++ df_enc_str (so_version d) ++ df_enc_str (so_serial d).
 
 (* jls_core_scan_sources, the part that parses one payload; [id] = chunk_meta *)
-Definition df_dec_source_def (j id : N) (pl : list N) : df_res srcdef :=
-  df_bind (df_rd_skip 64 (DfIn pl)) (fun c0 =>
-  df_bind (df_rd_str j c0) (fun '(name, c1) =>
-  df_bind (df_rd_str j c1) (fun '(vendor, c2) =>
-  df_bind (df_rd_str j c2) (fun '(model, c3) =>
-  df_bind (df_rd_str j c3) (fun '(version, c4) =>
-  df_bind (df_rd_str j c4) (fun '(serial, _) =>
+Definition df_dec_source_def (id : N) (pl : list N) : df_res srcdef :=
+  df_bind (df_rd_skip 64 pl) (fun c0 =>
+  df_bind (df_rd_str c0) (fun '(name, c1) =>
+  df_bind (df_rd_str c1) (fun '(vendor, c2) =>
+  df_bind (df_rd_str c2) (fun '(model, c3) =>
+  df_bind (df_rd_str c3) (fun '(version, c4) =>
+  df_bind (df_rd_str c4) (fun '(serial, _) =>
   DfOk {| so_id := id; so_name := SBytes name; so_vendor := SBytes vendor; so_model := SBytes model;
           so_version := SBytes version; so_serial := SBytes serial |})))))).
 
@@ -151,8 +140,8 @@ Definition df_enc_signal_def (d : sigdef) : list N :=
   ++ df_u32 (sg_adf d) ++ df_u32 (sg_udf d) ++ repeat 0 92 ++ df_enc_str (sg_name d) ++ df_enc_str (sg_units d).
 
 (* handle_signal_def, the parsing part *)
-Definition df_dec_signal_def (j id : N) (pl : list N) : df_res sigdef :=
-  df_bind (df_rd_u16 (DfIn pl)) (fun '(src, c0) =>
+Definition df_dec_signal_def (id : N) (pl : list N) : df_res sigdef :=
+  df_bind (df_rd_u16 pl) (fun '(src, c0) =>
   df_bind (df_rd_u8 c0) (fun '(ty, c1) =>
   df_bind (df_rd_skip 1 c1) (fun c2 =>
   df_bind (df_rd_u32 c2) (fun '(dt, c3) =>
@@ -164,8 +153,8 @@ Definition df_dec_signal_def (j id : N) (pl : list N) : df_res sigdef :=
   df_bind (df_rd_u32 c8) (fun '(adf, c9) =>
   df_bind (df_rd_u32 c9) (fun '(udf, c10) =>
   df_bind (df_rd_skip 92 c10) (fun c11 =>
-  df_bind (df_rd_str j c11) (fun '(name, c12) =>
-  df_bind (df_rd_str j c12) (fun '(units, _) =>
+  df_bind (df_rd_str c11) (fun '(name, c12) =>
+  df_bind (df_rd_str c12) (fun '(units, _) =>
   DfOk {| sg_id := id; sg_src := src; sg_type := ty; sg_dtype := dt; sg_rate := rate;
           sg_spd := spd; sg_sdf := sdf; sg_eps := eps; sg_sumdf := sumdf; sg_adf := adf; sg_udf := udf;
           sg_name := SBytes name; sg_units := SBytes units |})))))))))))))).
@@ -242,6 +231,19 @@ Definition df_validate (d : sigdef) : bool :=
   && ((sg_type d =? JLS_SIGNAL_TYPE_FSR) || (sg_type d =? JLS_SIGNAL_TYPE_VSR))
   && dt_valid (sg_dtype d).
 
+(* the ways jls_core_signal_def_align fails (PARAMETER_INVALID), for a caller's definition d with uint32
+   fields: one of the three round_up_to_multiple results exceeds UINT32_MAX (computed in 64 bits, so the
+   values are those of Spec.sp_align: the rounded sample_decimate_factor and entries_per_summary are fields of
+   sp_align d, the rounded samples_per_data is recomputed here), or the block buffer (samples_per_data
+   samples) / the summary buffer (entries_per_summary entries of JLS_SUMMARY_FSR_COUNT doubles) exceeds
+   UINT32_MAX / 2 bytes *)
+Definition df_align_ok (d : sigdef) : bool :=
+  let d' := sp_align d in
+  let w := dt_bits (sg_dtype d) in
+  (sg_sdf d' <=? 4294967295) && (sg_eps d' <=? 4294967295)
+  && (sp_round_up (N.max (sp_dflt w 0 (sg_spd d)) SAMPLES_PER_DATA_MIN) (sg_sdf d') <=? 4294967295)
+  && (sg_spd d' * w / 8 <=? 2147483647) && (sg_eps d' * (JLS_SUMMARY_FSR_COUNT * 8) <=? 2147483647).
+
 Definition df_track_tag (track chunk : N) : N := JLS_TRACK_TAG_FLAG + 8 * track + chunk.
 Definition df_tracks (ty : N) : list N :=
   if ty =? JLS_SIGNAL_TYPE_FSR then [JLS_TRACK_TYPE_FSR; JLS_TRACK_TYPE_ANNOTATION; JLS_TRACK_TYPE_UTC]
@@ -265,7 +267,8 @@ Definition df_wr_signal (w : df_wr) (d : sigdef) : df_wr * df_out :=
     else if negb (df_validate d) then (ws, DfRc JLS_ERROR_PARAMETER_INVALID)
     else
       let d' := sp_align d in
-      if (sg_type d =? JLS_SIGNAL_TYPE_FSR) && (sg_rate d =? 0) then (ws, DfRc JLS_ERROR_PARAMETER_INVALID)
+      if negb (df_align_ok d) then (ws, DfRc JLS_ERROR_PARAMETER_INVALID)
+      else if (sg_type d =? JLS_SIGNAL_TYPE_FSR) && (sg_rate d =? 0) then (ws, DfRc JLS_ERROR_PARAMETER_INVALID)
       else (df_set_sig w id (DfDefd d')
               (dfw_log w ++ DfLSig id (df_enc_signal_def d') :: df_track_entries id (sg_type d)), DfRc 0).
 
@@ -388,35 +391,34 @@ Fixpoint df_log_ud (log : list df_entry) : list (N * list N) :=
   end.
 
 (* jls_core_scan_sources: an unparsable payload aborts the scan (and jls_rd_open) *)
-Fixpoint df_scan_sources (j : N) (l : list (N * list N)) (t : N -> option srcdef) : df_res (N -> option srcdef) :=
+Fixpoint df_scan_sources (l : list (N * list N)) (t : N -> option srcdef) : df_res (N -> option srcdef) :=
   match l with
   | [] => DfOk t
   | (meta, pl) :: r =>
-    if JLS_SOURCE_COUNT <=? meta then df_scan_sources j r t
-    else df_bind (df_dec_source_def j meta pl) (fun d => df_scan_sources j r (df_upd t meta (Some d)))
+    if JLS_SOURCE_COUNT <=? meta then df_scan_sources r t
+    else df_bind (df_dec_source_def meta pl) (fun d => df_scan_sources r (df_upd t meta (Some d)))
   end.
 
 (* jls_core_scan_signals / handle_signal_def: the handler's error code is ignored; a definition that
    does not parse or validate leaves the entry not marked valid (the fields it had already stored are
    not modelled: they are not observable for an entry that is not valid, except for id 0) *)
-Fixpoint df_scan_signals (j : N) (l : list (N * list N)) (t : N -> option sigdef) (ch : N -> bool)
+Fixpoint df_scan_signals (l : list (N * list N)) (t : N -> option sigdef) (ch : N -> bool)
   : df_res ((N -> option sigdef) * (N -> bool)) :=
   match l with
   | [] => DfOk (t, ch)
   | (meta, pl) :: r =>
-    if JLS_SIGNAL_COUNT <=? meta then df_scan_signals j r t ch
-    else match df_dec_signal_def j meta pl with
-         | DfOk d => if df_validate d then df_scan_signals j r (df_upd t meta (Some d)) (df_upd ch meta true)
-                     else df_scan_signals j r t (df_upd ch meta true)
-         | DfErr _ => df_scan_signals j r t (df_upd ch meta true)
-         | DfOob => DfOob
+    if JLS_SIGNAL_COUNT <=? meta then df_scan_signals r t ch
+    else match df_dec_signal_def meta pl with
+         | DfOk d => if df_validate d then df_scan_signals r (df_upd t meta (Some d)) (df_upd ch meta true)
+                     else df_scan_signals r t (df_upd ch meta true)
+         | DfErr _ => df_scan_signals r t (df_upd ch meta true)
          end
   end.
 
 (* jls_rd_open, the definition part *)
-Definition df_scan (j : N) (log : list df_entry) : df_res df_rd :=
-  df_bind (df_scan_sources j (df_log_src log) (dfr_src df_rd0)) (fun ts =>
-  df_bind (df_scan_signals j (df_log_sig log) (dfr_sig df_rd0) (dfr_sigchunk df_rd0)) (fun '(tg, ch) =>
+Definition df_scan (log : list df_entry) : df_res df_rd :=
+  df_bind (df_scan_sources (df_log_src log) (dfr_src df_rd0)) (fun ts =>
+  df_bind (df_scan_signals (df_log_sig log) (dfr_sig df_rd0) (dfr_sigchunk df_rd0)) (fun '(tg, ch) =>
   DfOk {| dfr_src := ts; dfr_sig := tg; dfr_sigchunk := ch; dfr_ud := df_log_ud log |})).
 
 Definition df_ids : list N := map N.of_nat (seq 0 256).
@@ -433,13 +435,15 @@ Definition df_rd_signal (r : df_rd) (id : N) : df_res sigdef :=
        end.
 
 (* jls_core_user_data with a callback that never stops: the chunks after the reserved first one;
-   a storage type other than BINARY/STRING/JSON ends the walk with PARAMETER_INVALID *)
+   storage type INVALID is a placeholder chunk and is skipped; a storage type other than
+   INVALID/BINARY/STRING/JSON ends the walk with PARAMETER_INVALID *)
 Fixpoint df_ud_walk (l : list (N * list N)) : list udata * N :=
   match l with
   | [] => ([], 0)
   | (meta, pl) :: r =>
     let st := N.land (N.shiftr meta 12) 15 in
-    if (1 <=? st) && (st <=? 3)
+    if st =? 0 then df_ud_walk r
+    else if (1 <=? st) && (st <=? 3)
     then let '(items, rc) := df_ud_walk r in
          ({| ud_meta := N.land meta 4095; ud_stype := st; ud_data := pl |} :: items, rc)
     else ([], JLS_ERROR_PARAMETER_INVALID)
@@ -462,17 +466,23 @@ Definition df_sig_ranges (d : sigdef) : Prop :=
   sg_spd d < 4294967296 /\ sg_sdf d < 4294967296 /\ sg_eps d < 4294967296 /\ sg_sumdf d < 4294967296 /\
   sg_adf d < 4294967296 /\ sg_udf d < 4294967296.
 
-(* the guard on programs: strings fit a string block; the parameters stored for a signal (Spec.sp_align,
-   no uint32 wrap-around: C16) fit their fields; STRING/JSON user data is a C string with its terminator *)
+Definition df_src_nonul (d : srcdef) : Prop :=
+  df_nonul (str_read (so_name d)) /\ df_nonul (str_read (so_vendor d)) /\ df_nonul (str_read (so_model d)) /\
+  df_nonul (str_read (so_version d)) /\ df_nonul (str_read (so_serial d)).
+
+(* the guard on programs:
+   - definition strings are C strings (no NUL byte inside; any length: strings that do not fit a string block
+     are refused by the writer and by Spec.wstep alike);
+   - a signal's parameters pass jls_core_signal_def_align (df_align_ok; the writer refuses the others, which
+     Spec.wstep does not model) and the stored parameters (Spec.sp_align) fit their uint32 fields;
+   - STRING/JSON user data is a C string with its terminator *)
 Definition df_wop_ok (o : wop) : Prop :=
   match o with
-  | WSrc d => df_src_fits d
-  | WSig d => df_sig_fits d /\ df_sig_ranges (sp_align d)
+  | WSrc d => df_src_nonul d
+  | WSig d => (df_nonul (str_read (sg_name d)) /\ df_nonul (str_read (sg_units d))) /\
+              df_sig_ranges (sp_align d) /\ df_align_ok d = true
   | WUd u => (ud_stype u = JLS_STORAGE_TYPE_STRING \/ ud_stype u = JLS_STORAGE_TYPE_JSON) ->
              exists s, ud_data u = s ++ [0] /\ df_nonul s
   | _ => True
   end.
 Definition df_prog_ok (p : list wop) : Prop := Forall df_wop_ok p.
-(* no user-data item written with storage type INVALID (the defect class of user_data_roundtrip) *)
-Definition df_ud_valid_types (p : list wop) : Prop :=
-  forall u, In (WUd u) p -> ud_stype u <> JLS_STORAGE_TYPE_INVALID.
